@@ -12,6 +12,9 @@ pub mod read;
 pub mod reference;
 pub mod stmts;
 pub mod tlp;
+pub mod updates;
+pub mod updates_gen;
+pub mod updates_model;
 
 use crate::common::cypher::{QErr, Rows, run_read};
 use crate::common::sut::ScratchDir;
